@@ -20,7 +20,7 @@ package postfinance
 //
 //@ func (*Parser).readBookingLine
 //@   requires wfParserPF(p)
-//@   modifies *
+//@   modifies fields(p.reader), p.registry.accounts.index[*], p.builder.days[*], p.builder.min, p.builder.max, fields(p.builder.days[p.builder.min]), elems(p.builder.days[p.builder.min].Prices), elems(p.builder.days[p.builder.min].Openings), elems(p.builder.days[p.builder.min].Transactions), elems(p.builder.days[p.builder.min].Assertions), elems(p.builder.days[p.builder.min].Closings)
 //@   panics
 //@   quiet
 //@   callback Read=0
@@ -39,3 +39,33 @@ package postfinance
 //@             posting.Builder{Debit: p.account, Credit: dyn(targ("Add", 0, old(tlen()) + 3), "*transaction.Transaction").Postings[1].Account == p.account ? dyn(targ("Add", 0, old(tlen()) + 3), "*transaction.Transaction").Postings[0].Account : dyn(targ("Add", 0, old(tlen()) + 3), "*transaction.Transaction").Postings[1].Account,
 //@                 Commodity: old(p.currency), Quantity: tres("parseAmount", old(tlen()) + 2)})
 //@   ensures [C13] @text: result.0 ==> quotable(dyn(targ("Add", 0, old(tlen()) + 3), "*transaction.Transaction").Description)
+//
+// parse: the currency of every booking is the one the statement's header names ("Währung:" line, looked up
+// by its exact text without the ="..." wrapping), CHF only when the header has no such line.
+//@ func (*Parser).parse
+//@   requires p != nil && p.reader != nil && p.registry != nil && p.registry.accounts != nil && wfCommodities(p.registry.commodities)
+//@        && p.registry.accounts.index != p.registry.commodities.index && wfBuilder(p.builder) && validAccount(p.account)
+//@   modifies p.currency, p.registry.commodities.index[*], fields(p.reader), p.registry.accounts.index[*], p.builder.days[*], p.builder.min, p.builder.max, fields(p.builder.days[p.builder.min]), elems(p.builder.days[p.builder.min].Prices), elems(p.builder.days[p.builder.min].Openings), elems(p.builder.days[p.builder.min].Transactions), elems(p.builder.days[p.builder.min].Assertions), elems(p.builder.days[p.builder.min].Closings)
+//@   panics
+//@   quiet
+//@   callback readKeyValues=0
+//@   callback Trim=1
+//@   callback Get=2
+//@   callback MustGet=2
+//@   ensures [C13] @currency: result == nil ==> tlen() >= old(tlen()) + 2 && tkind(old(tlen())) == kind("readKeyValues")
+//@        && (("Währung:" in tres("readKeyValues", old(tlen()))) ==> tlen() == old(tlen()) + 3 && targ("Trim", 0, old(tlen()) + 1) == tres("readKeyValues", old(tlen()))["Währung:"]
+//@             && targ("Get", 0, old(tlen()) + 2) == tres("Trim", old(tlen()) + 1))
+//@        && (!("Währung:" in tres("readKeyValues", old(tlen()))) ==> tlen() == old(tlen()) + 2 && targ("MustGet", 0, old(tlen()) + 1) == "CHF")
+//@   loop 1 invariant tlen() == entry(tlen()) && p.reader != nil && wfParserPF(p)
+//@   loop 2 invariant tlen() == entry(tlen()) && p.reader != nil
+//
+//@ func (*Parser).readKeyValues
+//@   requires p != nil && p.reader != nil
+//@   modifies fields(p.reader)
+//@   ensures result.1 == nil ==> result.0 != nil && fresh(result.0)
+//@   loop 1 invariant res != nil && fresh(res) && p.reader != nil
+//
+//@ func (*Parser).readDisclaimer
+//@   requires p != nil && p.reader != nil
+//@   modifies fields(p.reader)
+
